@@ -142,7 +142,7 @@ lib_verify_priv(tc_t *t, uint32_t e, uint32_t r, uint32_t s, uint32_t d) {
 }
 /* The capacity every routine derives from curve->m ("double size + 1 digit") is too small for two factors that
  * both need the extra digit of an n longer than the field (secp160k1/r1/r2, secp224k1 layout).  On the real curves
- * that needs values >= 2^(8*bytes), i.e. probability 2^-80; on s251 / w65521 it is common.  Own clause. */
+ * that needs values >= 2^(8*bytes), i.e. probability 2^-80; on s251 / w65519 it is common.  Own clause. */
 static int
 is_n_overflow(tc_t *t, int rc) {
 	return (EOVERFLOW == rc && t->nbits > 8 * t->bytes);
@@ -802,8 +802,8 @@ main(int argc, char **argv) {
 		sign_all("w263m3", 1);
 		if (vh_thorough || C03_HEAVY) {
 			sign_all("s229a0", 1);
-			sign_all("s241m3", 1);
-			sign_all("w257", 1);
+			sign_all("s113m3", 1);
+			sign_all("w401", 1);
 		}
 		if (vh_thorough) {
 			sign_all("s127", 1);
@@ -822,9 +822,9 @@ main(int argc, char **argv) {
 		}
 		refsig_all("s199", 1);
 		refsig_all("s251", 1);
-		refsig_all("w257", 1);
+		refsig_all("w401", 1);
 		if (vh_thorough || C03_HEAVY) {
-			refsig_all("s241m3", 1);
+			refsig_all("s113m3", 1);
 			refsig_all("s229a0", 1);
 		}
 		if (vh_thorough) {
@@ -838,10 +838,10 @@ main(int argc, char **argv) {
 		bytes_all("s127", 1);		/* n has 7 bits in a one byte field */
 		bytes_all("s251", 1);		/* n has 9 bits in a one byte field: r, s may not fit */
 		bytes_all("w263m3", !vh_thorough);
-		bytes_all("w65521", 1);		/* n has 17 bits in a two byte field */
+		bytes_all("w65519", 1);		/* n has 17 bits in a two byte field */
 		if (vh_thorough) {
-			bytes_all("s241m3", 1);
-			bytes_all("w257", 1);
+			bytes_all("s113m3", 1);
+			bytes_all("w401", 1);
 		}
 	}
 #ifndef GC_DISABLE
